@@ -84,13 +84,15 @@ Perturb(Jd, depth) ==
   (IF depth = 0 THEN Atoms ELSE AtomsR) \cup
   (CASE Jd.j = "a" ->
           UNION {{[Jd EXCEPT !.e[i] = p] : p \in Perturb(Jd.e[i], depth + 1)} : i \in 1..Len(Jd.e)}
-          \cup (IF Len(Jd.e) > 0 THEN {Arr(Tail(Jd.e)), Arr(Jd.e \o <<Jd.e[1]>>), Arr(Jd.e \o <<N("p300")>>), Arr(Jd.e \o <<[j |-> "x", c |-> "x01"]>>)} ELSE {})
+          \cup (IF Len(Jd.e) > 0 THEN {Arr(Tail(Jd.e)), Arr(Jd.e \o <<Jd.e[1]>>), Arr(Jd.e \o <<N("p300")>>), Arr(Jd.e \o <<[j |-> "x", c |-> "x01"]>>),
+                                      Arr(Jd.e \o <<[j |-> "xs", c |-> "xnone"]>>), Arr(<<[j |-> "xs", c |-> "xnone"]>> \o Jd.e)} ELSE {})
      [] Jd.j = "o" ->
           UNION {{[Jd EXCEPT !.m[i].v = p] : p \in Perturb(Jd.m[i].v, depth + 1)} : i \in 1..Len(Jd.m)}
           \cup (IF depth = 0 THEN {[Jd EXCEPT !.m[i].k = k2] : i \in 1..Len(Jd.m), k2 \in AltKeys} ELSE {})
           \cup (IF Len(Jd.m) > 0 THEN {Obj(Tail(Jd.m)), Obj(Jd.m \o <<Jd.m[1]>>), Obj(Jd.m \o <<KV(Jd.m[1].k, Null)>>),
                                       Obj(Jd.m \o <<KV(Jd.m[1].k, N("p12"))>>), Obj(<<KV("Z", Arr(<<N("p7")>>))>> \o Jd.m),
-                                      Obj(Jd.m \o <<KV("Z", [j |-> "x", c |-> "xtru"])>>), Obj(Jd.m \o <<KV("Z", N("big"))>>)} ELSE {})
+                                      Obj(Jd.m \o <<KV("Z", [j |-> "x", c |-> "xtru"])>>), Obj(Jd.m \o <<KV("Z", N("big"))>>),
+                                      Obj(Jd.m \o <<KV("Z", [j |-> "xs", c |-> "xnone"])>>)} ELSE {})
      [] OTHER -> {})
 
 DocsFor(t) == {Match(t)} \cup Perturb(Match(t), 0)
